@@ -291,17 +291,17 @@ func (w *fWorld) doFetch(l fLeg, cl, url string, o fOpt) (string, string) {
 			args = append(args, "--no-tags")
 		}
 		args = append(args, "origin", refspecOf[o.Refspec])
-		ctx, cancel := context.WithTimeout(context.Background(), 60*time.Second)
+		ctx, cancel := context.WithTimeout(context.Background(), opTimeout)
 		defer cancel()
 		c := exec.CommandContext(ctx, "git", args...)
 		c.Dir = cl
 		c.Env = append(gitcli.Env(), "GIT_DIR="+cl)
 		out, err := c.CombinedOutput()
 		if ctx.Err() != nil {
-			return "timeout", "git fetch did not terminate within 60s"
+			return "timeout", "git fetch did not terminate within the time limit"
 		}
 		if err != nil {
-			return "error", strings.TrimSpace(string(out))
+			return errorClass(string(out)), strings.TrimSpace(string(out))
 		}
 		return "", ""
 	}
@@ -319,25 +319,41 @@ func (w *fWorld) doFetch(l fLeg, cl, url string, o fOpt) (string, string) {
 	default:
 		fo.Tags = plumbing.TagFollowing
 	}
-	ctx, cancel := context.WithTimeout(context.Background(), 60*time.Second)
+	ctx, cancel := context.WithTimeout(context.Background(), opTimeout)
 	defer cancel()
 	done := make(chan error, 1)
 	go func() { done <- repo.FetchContext(ctx, fo) }()
 	select {
 	case err = <-done:
-	case <-time.After(70 * time.Second):
-		return "timeout", "go-git Fetch did not return within 70s"
+	case <-time.After(opTimeout + 10*time.Second):
+		return "timeout", "go-git Fetch did not return within the time limit"
 	}
 	if s, ok := repo.Storer.(interface{ Close() error }); ok {
 		defer s.Close()
 	}
 	if ctx.Err() != nil {
-		return "timeout", "go-git Fetch did not terminate within 60s"
+		return "timeout", "go-git Fetch did not terminate within the time limit"
 	}
 	if err != nil && !errors.Is(err, git.NoErrAlreadyUpToDate) {
-		return "error", err.Error()
+		return errorClass(err.Error()), err.Error()
 	}
 	return "", ""
+}
+
+// errorClass: a failed fetch, told apart by what the failing side reported (a fetch that does not
+// terminate is a different class, "timeout", and never depends on this text)
+func errorClass(msg string) string {
+	switch {
+	case strings.Contains(msg, "unshallow"):
+		return "error:bogus-unshallow" // the client refused an unshallow line for a commit it never had as shallow
+	case strings.Contains(msg, "getting client objects") && strings.Contains(msg, "object not found"):
+		return "error:server-rejects-unknown-have"
+	case strings.Contains(msg, "some refs were not updated"):
+		return "error:refs-not-updated"
+	case strings.Contains(msg, "object not found"):
+		return "error:object-not-found"
+	}
+	return "error:other"
 }
 
 // ---- observation ------------------------------------------------------------------
@@ -561,7 +577,23 @@ func compareFetch(st fStep, ids map[string]string, refs map[string]string, shall
 
 // runLeg plays all steps of one scenario through one pairing.  useGit: observe with git
 // (for-each-ref, fsck); otherwise with go-git only.
+// opTimeout bounds one fetch/push.  Termination is part of C36, but a verdict must not depend on machine
+// load: an operation that exceeds the limit is run again (whole leg, fresh client) with ten times the limit and
+// only a second overrun is reported.
+var opTimeout = 60 * time.Second
+
 func (w *fWorld) runLeg(s *fScn, l fLeg, useGit bool) (int, []fDiff, map[string]any, error) {
+	step, ds, c, err := w.runLeg1(s, l, useGit)
+	if err == nil && len(ds) > 0 && ds[0].class == "timeout" {
+		old := opTimeout
+		opTimeout = 10 * old
+		step, ds, c, err = w.runLeg1(s, l, useGit)
+		opTimeout = old
+	}
+	return step, ds, c, err
+}
+
+func (w *fWorld) runLeg1(s *fScn, l fLeg, useGit bool) (int, []fDiff, map[string]any, error) {
 	cl, err := w.newClient(l)
 	if err != nil {
 		return 0, nil, nil, err
